@@ -373,8 +373,23 @@ func TestC18Sample(t *testing.T) {
 	st := NewStats("C18", "sample", "random sample of the cross product {find, replace, definition + replace, find + find + replace, non-compiling, -src naming no file} x {-com,-src} x {none,-json,-formatted-json,both} x -json-file x -formatted-json-file x -replace-mode {absent,NEW,NOTHING,OVERWRITE,bogus} x -no-output x {one file, glob, glob in a sub-directory, a directory name, glob matching nothing, glob whose literal pieces overlap in a file name, -files absent} over two directory fixtures, run as subprocesses of the freshly built binary; oracle: the library's result on the same directory; non-trivial = >=1 match and at least one JSON sink; distinct by flag vector and fixture")
 	defer st.Write()
 	all := allCLICases()
+	// a quarter of the sample comes from the vectors where several commands with matches
+	// meet several files and a JSON sink (the order of the document is then at stake)
+	var multi []int
+	for i, c := range all {
+		if c.Program == "findreplace" && (c.Files == "glob" || c.Files == "dirname" || c.Files == "overlap" || c.Files == "subdir") && (c.JSON != c.FJSON || c.JSONFile || c.FJSONFile) && !(c.JSON && c.FJSON) && c.Mode != "BOGUS" {
+			multi = append(multi, i)
+		}
+	}
+	if len(multi) == 0 {
+		t.Fatalf("HARNESS: no multi-command multi-file vectors")
+	}
 	rapid.Check(t, func(t *rapid.T) {
 		c := all[rapid.IntRange(0, len(all)-1).Draw(t, "vector")]
+		if rapid.IntRange(0, 3).Draw(t, "multi") == 0 {
+			c = all[multi[rapid.IntRange(0, len(multi)-1).Draw(t, "multivector")]]
+			st.Count("several_commands_several_files")
+		}
 		c.Dir = rapid.IntRange(0, len(cliFixtures)-1).Draw(t, "dir")
 		c.StaleSink = rapid.IntRange(0, 2).Draw(t, "stale") == 0
 		runCLICase(t, st, c)
